@@ -136,10 +136,10 @@ macro_rules! impl_observer {
       #[inline]
       fn error(self, _: Err) {}
 
+      // only an item of the notifier opens the gate; a notifier that
+      // completes without emitting leaves the source skipped.
       #[inline]
-      fn complete(self) {
-        self.0.stop_skipping()
-      }
+      fn complete(self) {}
 
       #[inline]
       fn is_finished(&self) -> bool {
